@@ -96,13 +96,15 @@ SettledAll == \A i \in Inst : (L[i].phase \in {"run", "observing"} /\ kvok[i]) =
 Event(e) ==
     CASE e.k = "reset"   -> Reset
       [] e.k = "start"   -> Start(e.i, e.cfg)
-      [] e.k = "cas"     -> /\ clock = e.now /\ kvok[e.i]
+      [] e.k = "stall"   -> Stall(e.i)
+      [] e.k = "unstall" -> Unstall(e.i)
+      [] e.k = "cas"     -> /\ clock = e.now /\ kvok[e.i] /\ ~L[e.i].stall
                             /\ WellFormed(e.in) /\ WellFormed(e.out)
                             /\ ring = RingOf(e.in) /\ rnil = e.in.nil     \* the store is a register: nothing unlogged
                             /\ CasStep(e.i, e.out)
                             /\ ring' = RingOf(e.out) /\ (e.ok => rnil' = FALSE)
                             /\ (~e.ok => ring' = ring)
-      [] e.k = "casfail" -> clock = e.now /\ ~kvok[e.i] /\ FailStep(e.i)
+      [] e.k = "casfail" -> clock = e.now /\ ~kvok[e.i] /\ ~L[e.i].stall /\ FailStep(e.i)
       [] e.k = "req"     -> Request(e.i, e.op, e.arg)
       [] e.k = "ret"     -> L[e.i].res = e.res /\ Return(e.i)
       [] e.k = "ready"   -> CheckReady(e.i) /\ L'[e.i].ready = e.res
@@ -125,14 +127,14 @@ Consume == /\ idx < NEv
            /\ Event(Trace[idx + 1])
            /\ idx' = idx + 1
            /\ TLCSet(1, Max(TLCGet(1), idx + 1))
-Silent  == /\ idx < NEv /\ \E i \in Inst : SilentStep(i) /\ UNCHANGED idx
+Silent  == /\ idx < NEv /\ \E i \in Inst : ~L[i].stall /\ SilentStep(i) /\ UNCHANGED idx
 
 TNext == Consume \/ Silent
 TSpec == TInit /\ [][TNext]_tvars
 
 TPos  == 0..15
 TBud  == [start |-> 1000000, ext |-> 1000000, stop |-> 1000000, ready |-> 1000000, wipe |-> 1000000,
-          kv |-> 1000000, crash |-> 1000000, envBy |-> 1000000]
+          kv |-> 1000000, crash |-> 1000000, envBy |-> 1000000, stall |-> 1000000]
 TCfgs == {DefaultCfg}
 TCfg0 == {[j \in 1..N |-> DefaultCfg]}
 
